@@ -1,2 +1,63 @@
-(* C18 (statements follow) *)
-From GJS Require Import Base Regex Schema GoType Gen.
+(* C18 - the tool fails loudly and cleanly: never panics, never half-succeeds.
+   Statements only; every proof is `exact <lemma>`; Print Assumptions under each. *)
+From GJS Require Import Base Schema GoType Gen GenP Driver DriverP.
+
+(* main.go:97-134: every input is generated before anything is written; a failure anywhere means
+   non-zero status, a diagnostic, nothing on stdout and no file written *)
+Theorem C18_all_or_nothing : forall flags_ok gen_all,
+  (r_status (cli flags_ok gen_all) = 0 /\ exists srcs, gen_all = DOk srcs /\
+     r_writes (cli flags_ok gen_all) = filter (fun ft => negb (str_eqb (fst ft) s_dash)) srcs)
+  \/ (r_status (cli flags_ok gen_all) <> 0 /\ r_stderr_empty (cli flags_ok gen_all) = false /\
+      r_stdout (cli flags_ok gen_all) = [] /\ r_writes (cli flags_ok gen_all) = []).
+Proof. exact cli_all_or_nothing. Qed.
+Print Assumptions C18_all_or_nothing.
+
+(* the ungeneratable elements are errors of the generator ... *)
+Theorem C18_unknown_type : forall cf fmt ptr b, primitive cf SUnknown fmt ptr b = GErr.
+Proof. exact unknown_type_fails. Qed.
+Print Assumptions C18_unknown_type.
+Theorem C18_missing_definition : forall idf cf defs f self sub s scope x,
+  c_enum (s_con s) = None -> c_ref (s_con s) = Some x -> lookup x defs = None -> gen idf cf defs (S f) MType self sub s scope = GErr.
+Proof. exact missing_definition_fails. Qed.
+Print Assumptions C18_missing_definition.
+Theorem C18_empty_enum : forall idf cf defs f self sub s scope, c_enum (s_con s) = Some [] -> gen idf cf defs (S f) MType self sub s scope = GErr.
+Proof. exact empty_enum_fails. Qed.
+Print Assumptions C18_empty_enum.
+
+(* ... and a failure at a property, an array item or a definition is a failure of everything above it:
+   the error is never dropped on the way up (one step per enclosing construct; any depth by iteration) *)
+Theorem C18_property : forall idf cf defs f self sub s scope k p,
+  plain_object s -> In (k, p) (s_props s) ->
+  (forall sc, is_done (gen idf cf defs f MInline self false p sc) = false) ->
+  is_done (gen idf cf defs (S f) MType self sub s scope) = false.
+Proof. exact object_fails_with_property. Qed.
+Print Assumptions C18_property.
+Theorem C18_declaration : forall idf cf defs f self sub s scope,
+  c_enum (s_con s) = None -> is_done (gen idf cf defs f MType self sub s scope) = false ->
+  is_done (gen idf cf defs (S f) MDeclared self sub s scope) = false.
+Proof. exact declared_fails. Qed.
+Print Assumptions C18_declaration.
+Theorem C18_nested_object : forall idf cf defs f self sub s scope,
+  c_enum (s_con s) = None -> c_ref (s_con s) = None -> s_all_of s = [] -> s_any_of s = [] -> c_types (s_con s) = [SObject] ->
+  is_done (gen idf cf defs f MDeclared self sub s scope) = false -> is_done (gen idf cf defs (S f) MInline self sub s scope) = false.
+Proof. exact inline_object_fails. Qed.
+Print Assumptions C18_nested_object.
+Theorem C18_array_item : forall idf cf defs f self sub s scope it,
+  c_enum (s_con s) = None -> c_ref (s_con s) = None -> s_all_of s = [] -> s_any_of s = [] -> c_types (s_con s) = [SArray] ->
+  s_items s = Some it -> (forall sc, is_done (gen idf cf defs f MInline self false it sc) = false) ->
+  is_done (gen idf cf defs (S f) MInline self sub s scope) = false.
+Proof. exact inline_array_fails. Qed.
+Print Assumptions C18_array_item.
+Theorem C18_definition : forall idf cf defs root root_name name d,
+  In (name, d) defs -> is_done (gen idf cf defs gen_fuel MDeclared (Some name) false d (idf name)) = false ->
+  is_done (gen_file idf cf defs root root_name) = false.
+Proof. exact file_fails_with_definition. Qed.
+Print Assumptions C18_definition.
+
+(* non-vacuity: an unknown type three levels down fails the file *)
+Definition bad : schema := Sch (mkC [SUnknown] None None [] 0 0 0 0 None None (mkBounds None None None None) None None) [] None false None [] [].
+Definition arr : schema := Sch (mkC [SArray] None None [] 0 0 0 0 None None (mkBounds None None None None) None None) [] None false (Some bad) [] [].
+Definition obj2 : schema := Sch (mkC [SObject] None None [] 0 0 0 0 None None (mkBounds None None None None) None None) [([108]%N, arr)] None false None [] [].
+Definition root3 : schema := Sch (mkC [SObject] None None [] 0 0 0 0 None None (mkBounds None None None None) None None) [([111]%N, obj2)] None false None [] [].
+Example C18_example : gen_file (fun s => s) (mkCfg false false) [] root3 [82]%N = GErr.
+Proof. vm_compute. reflexivity. Qed.
